@@ -350,7 +350,7 @@ std::string apply_mutation(const Step &m, std::string &tok, MutCtx &mc, bool &de
 			desc += strf("(part%zu)", part);
 		}
 	} else if (op == "hdr") {
-		int kind = (int)m.I("kind") % 7;
+		int kind = (int)m.I("kind") % 8;
 		json_t *h = decode_json_seg(parts[0]);
 		if (!h || !json_is_object(h)) {
 			if (h)
@@ -387,6 +387,16 @@ std::string apply_mutation(const Step &m, std::string &tok, MutCtx &mc, bool &de
 			json_array_append(a, h);
 			json_decref(h);
 			h = a;
+			break;
+		}
+		case 7: {
+			// a registered JOSE header parameter a library might special-case (RFC 7515 4.1, RFC 7797)
+			static const char *names[] = {"crit", "jku", "jwk", "x5u", "x5c", "x5t", "x5t#S256", "cty", "zip", "b64", "enc", "epk", "apu", "nonce", "iss"};
+			static const char *vals[] = {"[\"exp\"]", "\"https://attacker.example/jwks.json\"", "{\"kty\":\"oct\",\"k\":\"AAAA\"}", "true", "false", "null", "\"DEF\"", "[]", "1"};
+			const char *n = names[(uint64_t)m.I("alg") % ARRAY_LEN(names)];
+			json_t *v = json_loads(vals[(uint64_t)m.I("pos") % ARRAY_LEN(vals)], JSON_DECODE_ANY, NULL);
+			json_object_set_new(h, n, v);
+			desc += std::string("(+") + n + ")";
 			break;
 		}
 		}
@@ -601,8 +611,9 @@ Step gen_mutation(Rng &r, const std::string &bias)
 		m.set("part", r.range(0, 2));
 		m.set("from", (int64_t)r.below(64));
 	} else if (o == "hdr") {
-		m.set("kind", bias == "C02" ? (int64_t)r.pick(std::vector<int>{0, 0, 0, 0, 1, 2, 2, 6}) : r.range(0, 6));
+		m.set("kind", bias == "C02" ? (int64_t)r.pick(std::vector<int>{0, 0, 0, 0, 1, 2, 2, 6, 7}) : r.range(0, 7));
 		m.set("alg", (int64_t)r.below((uint64_t)N_ALG_VARIANTS));
+		m.set("pos", (int64_t)r.below(100000));
 	} else if (o == "pay") {
 		m.set("kind", r.range(0, 4));
 		m.set("pos", r.range(0, 1));
